@@ -1209,6 +1209,26 @@ func (e *Env) resolveType(ce *CE) (types.Type, error) {
 	case "bool":
 		return types.Typ[types.Bool], nil
 	}
+	switch s {
+	case "int64", "uint64", "float64", "int32", "uint32", "uint8", "byte", "rune", "uint", "int8", "int16", "uint16", "float32":
+		return types.Universe.Lookup(s).Type(), nil
+	}
+	if s == "any" {
+		return types.Universe.Lookup("any").Type(), nil
+	}
+	if strings.HasPrefix(s, "map[") {
+		if k := strings.IndexByte(s, ']'); k > 4 {
+			kt, err := e.resolveType(&CE{Kind: "str", Str: s[4:k]})
+			if err != nil {
+				return nil, err
+			}
+			vt, err := e.resolveType(&CE{Kind: "str", Str: s[k+1:]})
+			if err != nil {
+				return nil, err
+			}
+			return types.NewMap(kt, vt), nil
+		}
+	}
 	if strings.HasPrefix(s, "[]") {
 		et, err := e.resolveType(&CE{Kind: "str", Str: s[2:]})
 		if err != nil {
